@@ -91,7 +91,7 @@ func runC27(rc *RC) {
 	uid := func(kind int) int64 {
 		v := id()
 		for usedIDs[[2]int64{int64(kind), v}] {
-			v = v/2 + 7919
+			v = v/2 + 7919 + int64(len(usedIDs))
 		}
 		usedIDs[[2]int64{int64(kind), v}] = true
 		return v
